@@ -73,7 +73,7 @@ def run(case, W):
     if case["ws"]:
         cfg.append("WS " + " ".join(map(str, case["ws"])))
     cfg.append("RUN")
-    env = dict(os.environ, TSAN_OPTIONS="halt_on_error=1:exitcode=66:report_signal_unsafe=0")
+    env = dict(os.environ, TSAN_OPTIONS="halt_on_error=1:exitcode=66:report_signal_unsafe=0:report_thread_leaks=0")
     try:
         r = subprocess.run([exe], input=("\n".join(cfg) + "\n").encode(), capture_output=True, env=env, timeout=180)
     except subprocess.TimeoutExpired:
@@ -81,7 +81,7 @@ def run(case, W):
         return Result(skipped=True, labels=["timeout-inconclusive"])
     out = r.stdout.decode(errors="replace")
     err = r.stderr.decode(errors="replace")
-    if r.returncode == 4 and "RESULT deadlock" in out:
+    if "RESULT deadlock" in out:
         return Result(violation=("deadlock", "no thread made progress for 10 s (a lock that is never released?): %s" % out[-400:]))
     if r.returncode == 66 or "ThreadSanitizer" in err:
         return Result(violation=("data-race", err[-2500:]))
